@@ -128,9 +128,10 @@ class V:
                         if not (isinstance(hv, str) and re.match(r"\A[0-9a-fA-F]+\Z", hv) and len(hv) in (32, 40, 56, 64, 96, 128)):
                             self.add("hash-value-form", path + (hk,), "%r is not a plausible MD6 value" % (hv,))
                     elif n is not None:
-                        if not (isinstance(hv, str) and re.match(r"\A[0-9a-fA-F]{%d}\Z" % n, hv)):
+                        # (a TLSH digest is 70 hexadecimal digits, since TLSH 4.0 preceded by the version tag T1)
+                        if not (isinstance(hv, str) and re.match(r"\A%s[0-9a-fA-F]{%d}\Z" % ("(?:[Tt]1)?" if hk == "TLSH" else "", n), hv)):
                             self.add("hash-value-form", path + (hk,), "%r is not a %s value" % (hv, hk))
-                    elif not isinstance(hv, str) or "\n" in hv or hv == "":
+                    elif not isinstance(hv, str) or "\n" in hv or hv == "" or (hk == "SSDEEP" and not hv.isascii()):
                         self.add("hash-value-form", path + (hk,), "%r is not a hash string" % (hv,))
         elif k == "dict":
             self.check_dict_keys(v, path)
